@@ -112,6 +112,8 @@ package p9p
 //@ ensures preserved("E:uint8")
 //@ ensures typeis(v, *Fcall) && err == nil ==> bytes(result0) == encFcall(*v.(*Fcall)) && len(result0) == wireSize(*v.(*Fcall))
 //@ ensures !typeis(err, overflowErr)
+// a directory entry (stat record) passed by value: verified for codec9p as (codec9p).Marshal#dir
+//@ ensures typeis(v, Dir) && repDir(v.(Dir)) ==> err == nil && bytes(result0) == encDir(v.(Dir))
 
 //@ iface Codec.Unmarshal
 //@ params data v
@@ -947,11 +949,9 @@ package p9p
 //@ pure encQid(q Qid) Bytes = bcat(bcat(le1(q.Type), le4(q.Version)), le8(q.Path))
 //@ pure encData(d []byte) Bytes reads E:uint8 = bcat(le4(len(d)), bytes(d))
 // stat(5): size[2] type[2] dev[4] qid[13] mode[4] atime[4] mtime[4] length[8] name[s] uid[s] gid[s] muid[s]
-//@ pure encDirBody(d Dir) Bytes = bcat(bcat(bcat(bcat(bcat(bcat(bcat(bcat(bcat(bcat(le2(d.Type), le4(d.Dev)), encQid(d.Qid)), le4(d.Mode)), le4(unix(d.AccessTime))), le4(unix(d.ModTime))), le8(d.Length)), encStr(d.Name)), encStr(d.UID)), encStr(d.GID)), encStr(d.MUID))
 //@ pure dirLen(d Dir) int = 39 + 8 + len(d.Name) + len(d.UID) + len(d.GID) + len(d.MUID)
-//@ pure encDir(d Dir) Bytes = bcat(le2(dirLen(d)), encDirBody(d))
-// Rstat / Twstat carry stat[n]: n[2] followed by the n bytes of the stat record (which starts with its own size[2])
-//@ pure encStat(d Dir) Bytes = bcat(le2(dirLen(d) + 2), encDir(d))
+// the stat record: its own size[2] (the bytes that follow), then the fields; written as the flat concatenation of its pieces
+//@ pure encDir(d Dir) Bytes = bcat(bcat(bcat(bcat(bcat(bcat(bcat(bcat(bcat(bcat(bcat(bcat(bcat(bcat(bcat(bcat(bcat(bcat(bempty, le2(dirLen(d))), le2(d.Type)), le4(d.Dev)), le1(d.Qid.Type)), le4(d.Qid.Version)), le8(d.Qid.Path)), le4(d.Mode)), le4(unix(d.AccessTime))), le4(unix(d.ModTime))), le8(d.Length)), le2(len(d.Name))), sbytes(d.Name)), le2(len(d.UID))), sbytes(d.UID)), le2(len(d.GID))), sbytes(d.GID)), le2(len(d.MUID))), sbytes(d.MUID))
 //@ pure repDir(d Dir) bool = len(d.Name) <= 65535 && len(d.UID) <= 65535 && len(d.GID) <= 65535 && len(d.MUID) <= 65535 && dirLen(d) + 2 <= 65535 && 0 <= unix(d.AccessTime) && unix(d.AccessTime) <= 4294967295 && 0 <= unix(d.ModTime) && unix(d.ModTime) <= 4294967295 && d.AccessTime == utc(unix(d.AccessTime)) && d.ModTime == utc(unix(d.ModTime))
 // nwname[2] nwname*(wname[s]) and nwqid[2] nwqid*(qid[13]): concatenation over the list, defined by recursion on the prefix length
 //@ pure namesUpto(s []string, n int) Bytes reads E:string
@@ -1341,3 +1341,48 @@ package p9p
 //@ use bytes
 //@ requires codec != nil && d != nil
 //@ ensures proportionate: dynalloc() - old(dynalloc()) <= 5 * 65537
+
+// ---------------------------------------------------------------- readdir.go (C17)
+//
+// The entry iterator is an environment. Ghost src(fn): the encodings of all entries the iterator has still to deliver,
+// concatenated in listing order (a prophecy of the listing). A call either delivers the next entry, whose encoding is
+// the head of src, or reports io.EOF exactly when src is empty, or fails with another error.
+//@ ghost src Bytes
+//@ iface Readdir.nextfn.call
+//@ params ctx
+//@ modifies src
+//@ ensures next: err == nil ==> old(src(self)) == bcat(encDir(result0), src(self)) && repDir(result0)
+//@ ensures eof: err == io.EOF <==> old(src(self)) == bempty
+//@ ensures eof_keeps: err == io.EOF ==> src(self) == bempty
+//@ ensures others: forall k int :: {gk(src, k)} k != key(self) ==> gk(src, k) == old(gk(src, k))
+
+// What is still to be delivered to the client: the entry held back in the one-item buffer, then the iterator's rest.
+//@ macro TODO(r) = (r.buf != nil ? bcat(encDir(*r.buf), src(r.nextfn)) : src(r.nextfn))
+
+//@ func (*Readdir).Read
+//@ timeout 40
+//@ property C17
+//@ use bytes assoc_r noassoc
+//@ requires rd != nil && rd.nextfn != nil && rd.codec != nil
+// fewer than 2^63 bytes have been delivered so far
+//@ requires 0 <= rd.offset && rd.offset + len(p) <= 9223372036854775807
+//@ requires rd.buf != nil ==> repDir(*rd.buf)
+//@ ensures bad_offset: old(rd.offset) != offset ==> n == 0 && err == ErrBadoffset && rd.offset == old(rd.offset) && TODO(rd) == old(TODO(rd)) && rd.buf == old(rd.buf)
+//@ ensures at_most_requested: 0 <= n && n <= len(p)
+//@ ensures offset_advances: old(rd.offset) == offset ==> rd.offset == offset + n
+//@ ensures whole_entries_in_order: old(rd.offset) == offset && err == nil ==> old(TODO(rd)) == bcat(btake(bytes(p), n), TODO(rd))
+//@ ensures end_is_empty_read: old(rd.offset) == offset && old(TODO(rd)) == bempty ==> n == 0 && err == nil
+//@ ensures progress: old(rd.offset) == offset && n == 0 && err == nil && len(p) > 0 ==> old(TODO(rd)) == bempty || (rd.buf != nil && blen(encDir(*rd.buf)) > len(p))
+//@ ensures buffered_ok: rd.buf != nil ==> repDir(*rd.buf)
+//@ loop 1 invariant base(p) == base(old_p) && off(p) == off(old_p) && cap(p) == len(old_p) && 0 <= len(p) && len(p) <= cap(p)
+//@ loop 1 invariant old(TODO(rd)) == bcat(bytes(p), TODO(rd))
+//@ loop 1 invariant rd.offset == old(rd.offset) && rd.nextfn == old(rd.nextfn) && rd.codec == old(rd.codec) && err == nil
+//@ loop 1 invariant rd.buf != nil ==> repDir(*rd.buf)
+//@ loop 1 invariant rd.buf != nil ==> len(p) == 0
+
+//@ func (codec9p).Marshal#dir
+//@ property C17
+//@ use bytes noassoc assoc_r
+//@ dyn v : Dir
+//@ requires repDir(v.(Dir))
+//@ ensures stat_record: err == nil && bytes(result0) == encDir(v.(Dir))
